@@ -283,4 +283,6 @@ example : encrypt toyCrypto.toKeyCrypto curveP256 toyKey [1] toyArgon toyNonce =
 
 example : checkArgon toyArgon = none := by decide
 
+example : ArgonWF toyArgon ∧ toyArgon.salt.length < 2 ^ 32 := by unfold ArgonWF; decide
+
 end Nebula.Props.C43
